@@ -126,6 +126,7 @@ pub fn replay_parse(opts: &Opts) -> i32 {
     let mut passthrough = 0u64;
     let mut seen: HashSet<u64> = HashSet::new();
     let mut distinct_specified = 0u64;
+    let mut prev_ok: Option<String> = None;
     for line in stdin.lock().lines() {
         let line = match line { Ok(l) => l, Err(_) => continue };
         let js = match tlc_unquote(&line) {
@@ -182,6 +183,22 @@ pub fn replay_parse(opts: &Opts) -> i32 {
                 }
             }
         }
+        // ... and right after a DIFFERENT input that fails LATE (the previous accepted vector with junk appended:
+        // a further clause / word that is invalid, an unclosed group): what a call leaves behind on its error path is
+        // only seen by the next call (seed C08-i: clauses of a rejected -perm list applied to the next one)
+        if kinds.is_empty() {
+            if let Some(prev) = &prev_ok {
+                if prev != &input {
+                    for junk in [",~", " -nosuchword", " ("] {
+                        let _ = run_parse(&format!("{}{}", prev, junk));
+                        let again = run_parse(&input);
+                        let k2 = compare_parse(&input, &exp, &again);
+                        if !k2.is_empty() { kinds = k2; kinds.push("after-related-input"); break; }
+                    }
+                }
+            }
+        }
+        if let ParseOut::Ok(_, _) = &obs { if input.len() <= 300 { prev_ok = Some(input.clone()); } }
         if total {
             // C03: the rest of the pipeline must return too (compile, render, io_map)
             if let ParseOut::Ok(o, t) = &obs {
